@@ -580,6 +580,22 @@ fn spawn_async_ao_list_in_task'''),
         ('rest-cut-at-byte-one', 'brush-core/src/expansion.rs', "                    result.extend(s.chars().skip(1));", "                    result.push_str(&s[1..]);"),
         ('pattern-error-swallowed', 'brush-core/src/expansion.rs', "pattern.is_empty() || pattern.exactly_matches(first_char.to_string().as_str())?", "pattern.is_empty() || matches!(pattern.exactly_matches(first_char.to_string().as_str()), Ok(true))"),
     ],
+    'U26': [
+        ('substitution-resets-the-exemption', 'brush-core/src/commands.rs', "    params.process_group_policy = ProcessGroupPolicy::SameProcessGroup;\n\n    // Set up pipe so we can read the output.", "    params.process_group_policy = ProcessGroupPolicy::SameProcessGroup;\n    params.suppress_errexit = false;\n\n    // Set up pipe so we can read the output."),
+        ('errexit-always-inherited', 'brush-core/src/commands.rs', "    if !shell.options().command_subst_inherits_errexit {\n        subshell.options_mut().exit_on_nonzero_command_exit = false;\n    }\n", ""),
+        ('errexit-switched-off-in-the-parent', 'brush-core/src/commands.rs', "        subshell.options_mut().exit_on_nonzero_command_exit = false;", "        shell.options_mut().exit_on_nonzero_command_exit = false;"),
+        ('pipe-installed-as-stdin', 'brush-core/src/commands.rs', "    params.set_fd(OpenFiles::STDOUT_FD, writer.into());\n\n    let mut async_reader", "    params.set_fd(OpenFiles::STDIN_FD, writer.into());\n\n    let mut async_reader"),
+    ],
+    'U10b': [
+        ('escape-flag-set-after-every-backslash', 'brush-core/src/regex.rs', "        in_escape = !in_escape && c == '\\\\';", "        in_escape = c == '\\\\';"),
+        ('class-name-check-dropped', 'brush-core/src/regex.rs', "            '[' if !in_escape && in_brackets && !next_is_colon => {", "            '[' if !in_escape && in_brackets => {"),
+        ('escaped-close-bracket-closes', 'brush-core/src/regex.rs', "            ']' if !in_escape && in_brackets => {", "            ']' if in_brackets => {"),
+    ],
+    'U10c': [
+        ('dot-policy-looks-at-any-piece', 'brush-core/src/patterns.rs', "                let subpattern_starts_with_dot = component\n                    .iter()\n                    .map(|piece| piece.as_str())\n                    .collect::<String>()\n                    .starts_with('.');", "                let subpattern_starts_with_dot = component\n                    .iter()\n                    .any(|piece| piece.as_str().starts_with('.'));"),
+        ('dot-policy-looks-at-first-piece', 'brush-core/src/patterns.rs', "                let subpattern_starts_with_dot = component\n                    .iter()\n                    .map(|piece| piece.as_str())\n                    .collect::<String>()\n                    .starts_with('.');", "                let subpattern_starts_with_dot = subpattern\n                    .pieces\n                    .first()\n                    .is_some_and(|piece| piece.as_str().starts_with('.'));"),
+        ('dot-policy-inverted-option', 'brush-core/src/patterns.rs', "let allow_dot_files = !options.require_dot_in_pattern_to_match_dot_files", "let allow_dot_files = options.require_dot_in_pattern_to_match_dot_files"),
+    ],
     'U16': [
         ('tilde-not-flagged-at-start', 'brush-core/src/escape.rs', "    matches!(c, '#' | '~')", "    matches!(c, '#')"),
         ('bang-not-flagged', 'brush-core/src/escape.rs', "            | '!'\n", ""),
